@@ -14,7 +14,8 @@ From Coq Require Import NArith ZArith List.
 From Carquet Require Import Base.Res Gen.Enums_gen Enc.RleModel Enc.DeltaBits Enc.PlainModel
      Writer.TableSpec Writer.PageWriterModel Writer.ColumnWriterModel Writer.FileWriterModel
      Reader.PageDecodeModel Reader.ReadAllModel
-     Writer.LevelProofs Writer.WriterProofs Writer.ChunkProofs Writer.FileProofs.
+     Writer.LevelProofs Writer.WriterProofs Writer.ChunkProofs Writer.FileProofs
+     Writer.WriterThriftModel Writer.CodecInstances.
 Import ListNotations.
 Local Open Scope N_scope.
 
@@ -55,7 +56,8 @@ Theorem c01_chunk_roundtrip :
   forall (codec : Z) (compress : list N -> list N) (decompress : list N -> N -> res (list N))
          (header : page_hdr -> list N) (parse_header : list N -> res (hdr_core * N)) (verify : bool),
   (Z.eqb codec E_CARQUET_COMPRESSION_UNCOMPRESSED = true -> forall b, compress b = b) ->
-  (Z.eqb codec E_CARQUET_COMPRESSION_UNCOMPRESSED = false -> forall b, decompress (compress b) (len b) = Ok b) ->
+  (Z.eqb codec E_CARQUET_COMPRESSION_UNCOMPRESSED = false ->
+   forall b, Forall (fun x => x < 256) b -> len b < 2 ^ 31 -> decompress (compress b) (len b) = Ok b) ->
   (forall h rest, parse_header (header h ++ rest) = Ok (core_of h, len (header h))) ->
   (forall h, len (header h) <= 256) -> (forall h, 0 < len (header h)) ->
   forall c page_size bs w, column_ok c = true -> forallb (batch_ok c) bs = true ->
@@ -81,7 +83,8 @@ Theorem c01_write_read_roundtrip :
          (footer : file_meta -> list N) (parse_footer : list N -> res file_meta) (verify : bool)
          (sch : list column) (opts : options),
   (Z.eqb (o_codec opts) E_CARQUET_COMPRESSION_UNCOMPRESSED = true -> forall b, compress b = b) ->
-  (Z.eqb (o_codec opts) E_CARQUET_COMPRESSION_UNCOMPRESSED = false -> forall b, decompress (compress b) (len b) = Ok b) ->
+  (Z.eqb (o_codec opts) E_CARQUET_COMPRESSION_UNCOMPRESSED = false ->
+   forall b, Forall (fun x => x < 256) b -> len b < 2 ^ 31 -> decompress (compress b) (len b) = Ok b) ->
   (forall h rest, parse_header (header h ++ rest) = Ok (core_of h, len (header h))) ->
   (forall h, len (header h) <= 256) -> (forall h, 0 < len (header h)) ->
   (forall m, parse_footer (footer m) = Ok m) ->
@@ -94,3 +97,25 @@ Theorem c01_write_read_roundtrip :
                /\ drop_empty r = result_of_table t).
 Proof. exact write_read_roundtrip. Qed.
 Print Assumptions c01_write_read_roundtrip.
+
+(** The same for files written with UNCOMPRESSED, SNAPPY, LZ4 or LZ4_RAW, where the compressor and decompressor are
+    carquet's own code (compress_data / decompress_page on the concrete models of C09/C10): the codec premise is
+    discharged by snappy_roundtrip_thm / lz4_roundtrip_thm; only the Thrift round trips remain as premises. *)
+Theorem c01_write_read_roundtrip_own_codecs :
+  forall (header : page_hdr -> list N) (parse_header : list N -> res (hdr_core * N))
+         (footer : file_meta -> list N) (parse_footer : list N -> res file_meta) (verify : bool)
+         (sch : list column) (opts : options),
+  own_codec (o_codec opts) ->
+  (forall h rest, parse_header (header h ++ rest) = Ok (core_of h, len (header h))) ->
+  (forall h, len (header h) <= 256) -> (forall h, 0 < len (header h)) ->
+  (forall m, parse_footer (footer m) = Ok m) ->
+  forallb column_ok sch = true ->
+  forall ops t, table_of sch ops = Some t ->
+  exists sts w, run_writer (codec_compress (o_codec opts)) header footer sch opts ops = Ok (sts, w, true)
+    /\ all_ok sts = true /\
+    (Forall (fun g => Forall small_chunk (rg_chunks g)) (f_groups w) ->
+     len (footer (mkfm footer_version sch (f_total_rows w) (f_groups w) (created_by opts))) < 2 ^ 32 ->
+     exists r, read_all (o_codec opts) (codec_decompress (o_codec opts)) parse_header parse_footer verify (f_out w) = Ok r
+               /\ drop_empty r = result_of_table t).
+Proof. exact write_read_roundtrip_own_codecs. Qed.
+Print Assumptions c01_write_read_roundtrip_own_codecs.
